@@ -186,6 +186,79 @@ def root_rule(chk, db, rule_id):
     return n
 
 
+def relatives_rule(chk, db, rule_id):
+    """every routine that enumerates the immediate relatives of an index visits all of them: kids 0..max-1, the parent and (for rules with two parents) the step-parent"""
+    from tsg.peval import ArrayPEval
+    pe0 = PEval(db)
+
+    def insts(name):
+        return {f.d.get("targs", "").rsplit("::", 1)[-1]: f for f in db.fns(RL + name, [HPP]) if f.d.get("targs")}
+    MK, MP = insts("getMaxNumKids"), insts("getMaxNumParents")
+    n = 0
+    libfns = [f for fs_ in db.load_all().values() for f in fs_ if not f.file.startswith("@verif") and "test" not in f.file.lower() and not f.d.get("islambda")]
+    for f in libfns:
+        asg = []
+        for q in f.walk(into_lambda=False):
+            if q.get("k") == "BinaryOperator" and q.get("op") == "=" and strip(q["c"][0]) is not None and strip(q["c"][0]).get("k") == "DeclRefExpr":
+                cs = {short(callee(x) or "") for x in walk(q["c"][1]) if (callee(x) or "").startswith(RL)}
+                if cs & {"getKid", "getParent", "getStepParent"}:
+                    asg.append((q, cs))
+        if not asg or not any("getKid" in cs for q, cs in asg) or not any("getParent" in cs for q, cs in asg):
+            continue
+        dids = {strip(q["c"][0])["did"] for q, cs in asg}
+        if len(dids) != 1 or not is_reachable(f, asg[0][0]):
+            continue
+        did = next(iter(dids))
+        # the rule this instantiation works on: template argument that names an erule
+        r = next((t.rsplit("::", 1)[-1] for t in (f.d.get("targs") or "").split(",") if "erule::" in t), None)
+        if r is None or r not in MK:
+            continue
+        loop = next((a for a in f.ancestors(asg[0][0]) if a.get("k") == "CXXForRangeStmt" and all(any(x is q for x in walk(a)) for q, cs in asg)), None)
+        if loop is None:
+            continue
+        body = loop.get("body")
+
+        def hook(node, ev):
+            cal = callee(node) or ""
+            if cal.endswith("RuleLocal::getKid"):
+                j = ev(call_args(node)[1])
+                if not getattr(j, "is_Integer", False):
+                    raise NotClosedForm("kid number is not concrete")
+                return sympy.Symbol("kid_%d" % int(j))
+            if cal.endswith("RuleLocal::getParent"):
+                return sympy.Symbol("parent")
+            if cal.endswith("RuleLocal::getStepParent"):
+                return sympy.Symbol("stepparent")
+            return None
+        pe = ArrayPEval(db, hook=hook)
+        pe.tracked = {did}
+        env = {}
+        # locals declared before the loop (max_kids, max_relatives) are needed by its conditions
+        problem = None
+        try:
+            pre = []
+            for a in f.ancestors(loop):
+                if a.get("k") == "CompoundStmt":
+                    for c in a.get("c", []):
+                        if isinstance(c, dict) and c.get("k") == "DeclStmt" and c.get("l", 0) < loop.get("l", 0) and all(d.get("t") == "int" for d in c.get("c", [])):
+                            pre.append(c)
+            pe.inplace(sorted(pre, key=lambda c: c.get("l", 0)), env, f, 0)
+            pe.inplace([body], env, f, 0)
+        except NotClosedForm as e:
+            problem = "enumeration not foldable: %s" % e
+        got = {str(v) for d_, v in pe.assigned if v is not None}
+        mk = int(pe0.call(MK[r], []))
+        mp = int(pe0.call(MP[r], []))
+        want = {"kid_%d" % i for i in range(mk)} | {"parent"} | ({"stepparent"} if mp == 2 else set())
+        n += 1
+        chk.saw(f)
+        if problem is None and got != want and not (mp == 1 and got == want | {"stepparent"}):
+            problem = "visits %s, the relatives of a <%s> index are %s" % (sorted(got), r, sorted(want))
+        chk.ob(rule_id, f.key, "enumeration of the immediate relatives", problem is None, f.loc(loop), problem or "visits %s" % sorted(got),
+               "all kids, the parent and the step-parent (the single-sample and the batch route must agree on what is connected)")
+    return n
+
+
 def run(chk):
     db = DB("serial")
     db.load_all()
@@ -239,6 +312,15 @@ def run(chk):
                 ok = bool(must_pass_after(f, start, lambda x: id(x) in ids)) or id(start) in ids
             chk.ob("C09-D1.nodrop", f.key + f.sig, "sample inserted or parked on every path", ok, f.where, "%d sink call(s), %d of them once per delivered sample" % (len(sinks), per_sample))
     chk.floor("C09-D1.nodrop", nd1, 10, "loadConstructedPoint overloads")
+    # the parking routine itself: whatever it reports to its caller, the sample is stored first (the caller registers the missing tensor from the stored samples)
+    for f in db.fns("TasGrid::DynamicConstructorDataGlobal::addNewNode"):
+        chk.saw(f)
+        ents = [e for e in f.cfg.blocks[f.cfg.succs(f.cfg.entry)[0]]["e"] if isinstance(e, int)] if f.cfg.succs(f.cfg.entry) else []
+        park = lambda x: (callee(x) or "").endswith(("::emplace_front", "::push_front")) and txt(strip(call_object(x)) or {}) == "data"
+        start = f.nodes.get(ents[0]) if ents else None
+        ok = start is not None and (park(start) or bool(must_pass_after(f, start, park)))
+        chk.ob("C09-D1.nodrop", f.key, "the sample is stored on every path, also when no registered tensor contains it", ok, f.where,
+               "" if ok else "on the tensor_missing path the sample is not stored: addTensor then registers the tensor without it and the sample is lost")
     # who removes parked data
     for cls, store in (("TasGrid::SimpleConstructData", "data"), ("TasGrid::DynamicConstructorDataGlobal", "data")):
         removers = set()
@@ -304,6 +386,12 @@ def run(chk):
                             how = "on the tensor_complete edge"
                 chk.ob("C09-D5.eject", f.key + f.sig, "addNewNode @%d: a completed tensor is loaded" % c.get("l", 0), ok, f.loc(c), how)
     chk.floor("C09-D5.eject", nd5, 4, "parking / registration sites in GridGlobal::loadConstructedPoint")
+
+    # ------------------------------------------------------------------ D8
+    chk.rule("C09-D8.relatives", "every routine that decides connectivity by enumerating the immediate relatives of an index (single-sample admission, batch promotion of parked samples) "
+                                 "visits all of them: kids 0..max-1, the parent and, for rules with two parents, the step-parent")
+    nd8 = relatives_rule(chk, db, "C09-D8.relatives")
+    chk.floor("C09-D8.relatives", nd8, 8, "relative enumerations (function x rule)")
 
     # ------------------------------------------------------------------ D7
     chk.rule("C09-D7.flags", "typestate of the per-tensor sample flags: 'complete' is represented by an empty `loaded` vector (the only state ejectCompleteTensor and getNodesIndexes recognise); "
